@@ -910,17 +910,20 @@ Definition start_state (e : env) (roots : list node) : est :=
 
 (* parse_single_node (one node with its children) and parse_node (the loop over the `next` chain; an empty
    chain, i.e. a NULL root, encodes nothing); tbl = the main table (for embedded trees) *)
+(* the loop of parse_node over a `next` chain, given the function for one node *)
+Definition seq_nodes (pn : env -> option tagname -> node -> est -> eres (bytes * est)) :=
+  fix go (e : env) (parent : option tagname) (ns : list node) (st : est) : eres (bytes * est) :=
+    match ns with
+    | [] => EOk ([], st)
+    | x :: r =>
+      do (b1, st1) <- pn e parent x st;
+      do (b2, st2) <- go e parent r st1;
+      EOk (b1 ++ b2, st2)
+    end.
+
 Fixpoint parse_node (tbl : list blang) (e : env) (parent : option tagname) (n : node) (st : est)
   : eres (bytes * est) :=
-  let parse_nodes :=
-      fix go (e : env) (parent : option tagname) (ns : list node) (st : est) : eres (bytes * est) :=
-        match ns with
-        | [] => EOk ([], st)
-        | x :: r =>
-          do (b1, st1) <- parse_node tbl e parent x st;
-          do (b2, st2) <- go e parent r st1;
-          EOk (b1 ++ b2, st2)
-        end in
+  let parse_nodes := seq_nodes (parse_node tbl) in
   match n with
   | NElt tag attrs ch =>
     let has_content := match ch with [] => false | _ => true end in
@@ -957,15 +960,7 @@ Fixpoint parse_node (tbl : list blang) (e : env) (parent : option tagname) (n : 
     end
   end.
 
-Fixpoint parse_nodes (tbl : list blang) (e : env) (parent : option tagname) (ns : list node) (st : est)
-  : eres (bytes * est) :=
-  match ns with
-  | [] => EOk ([], st)
-  | x :: r =>
-    do (b1, st1) <- parse_node tbl e parent x st;
-    do (b2, st2) <- parse_nodes tbl e parent r st1;
-    EOk (b1 ++ b2, st2)
-  end.
+Definition parse_nodes (tbl : list blang) := seq_nodes (parse_node tbl).
 
 (* body and header of one document, separately (C07: the body does not depend on version / anonymous) *)
 Definition enc_env (l : blang) (o : options) : env :=
